@@ -1,8 +1,8 @@
 package main
 
 import (
+	"sort"
 	"go/token"
-	"go/types"
 
 	"golang.org/x/tools/go/ssa"
 )
@@ -33,29 +33,48 @@ func checkC07(r *Run) {
 }
 
 // ruleSubAckShape: R-C07-5.
-func (c *Ctx) ruleSubAckShape(rr *RuleRep) {
-	f := c.Func("subscribeImpl")
-	if f == nil {
-		// role: the static callee of (*BaseClient).Subscribe
-		if m := c.Method("BaseClient", "Subscribe"); m != nil {
-			for _, g := range c.calleesOf(m, false) {
-				f = g
-			}
+// subscribeImpls: the functions that write a SUBSCRIBE request, each with the slice of subscriptions the packet is built from.
+func (c *Ctx) subscribeImpls() map[*ssa.Function]ssa.Value {
+	out := map[*ssa.Function]ssa.Value{}
+	for _, s := range c.cachedSites() {
+		if s.Kind != "subscribe" || s.Write == nil || len(s.Write.Call.Args) != 2 {
+			continue
+		}
+		_, pcall := c.packedType(s.Write.Call.Args[1])
+		if pcall == nil || len(pcall.Call.Args) != 1 {
+			continue
+		}
+		if v := c.packetField(pcall.Call.Args[0], "Subscriptions"); v != nil {
+			out[s.F] = c.Resolve(v)
 		}
 	}
-	if f == nil {
+	return out
+}
+
+func (c *Ctx) ruleSubAckShape(rr *RuleRep) {
+	impls := c.subscribeImpls()
+	if len(impls) == 0 {
 		rr.Lost("subscribeImpl", "subscribe implementation not found")
 		return
 	}
 	rr.Floor(2)
-	var subs ssa.Value
-	for _, p := range f.Params {
-		if sl, ok := p.Type().Underlying().(*types.Slice); ok && typeName(sl.Elem()) == "Subscription" {
-			subs = p
-		}
+	var fs []*ssa.Function
+	for f := range impls {
+		fs = append(fs, f)
+	}
+	sort.Slice(fs, func(i, j int) bool { return FuncName(fs[i]) < FuncName(fs[j]) })
+	for _, f := range fs {
+		c.ruleSubAckShapeIn(rr, f, impls[f], len(fs) > 1)
+	}
+}
+
+func (c *Ctx) ruleSubAckShapeIn(rr *RuleRep, f *ssa.Function, subs ssa.Value, qualify bool) {
+	pfx := "subscribeImpl"
+	if qualify {
+		pfx = FuncName(f)
 	}
 	if subs == nil {
-		rr.Lost("subscribeImpl/subs", "no []Subscription parameter")
+		rr.Lost(pfx+"/subs", "no []Subscription the packet is built from")
 		return
 	}
 	// find comparisons len(X.Codes) ? len(subs)
@@ -112,13 +131,13 @@ func (c *Ctx) ruleSubAckShape(rr *RuleRep) {
 			}
 		}
 		if ok {
-			rr.OK("subscribeImpl/count", ret.Pos(), "success return dominated by len(subAck.Codes) == len(subs)")
+			rr.OK(pfx+"/count", ret.Pos(), "success return dominated by len(subAck.Codes) == len(subs)")
 		} else {
-			rr.Bad("subscribeImpl/count", ret.Pos(), "Subscribe can return success without having established that the SUBACK carries exactly one return code per requested filter (no dominating equality of len(Codes) and len(subs))")
+			rr.Bad(pfx+"/count", ret.Pos(), "Subscribe can return success without having established that the SUBACK carries exactly one return code per requested filter (no dominating equality of len(Codes) and len(subs))")
 		}
 	}
 	if nSucc == 0 {
-		rr.Lost("subscribeImpl/success", "no success return")
+		rr.Lost(pfx+"/success", "no success return")
 	}
 	// mismatch edge returns ErrInvalidSubAck
 	for _, e := range eqs {
@@ -133,13 +152,13 @@ func (c *Ctx) ruleSubAckShape(rr *RuleRep) {
 			ev := c.errResult(ret)
 			call, callee := c.asCall(ev)
 			if call != nil && callee != nil && callee.Pkg == c.Pkg && len(call.Call.Args) > 0 && c.isGlobalLoad(call.Call.Args[0], "ErrInvalidSubAck") {
-				rr.OK("subscribeImpl/mismatch", ret.Pos(), "count mismatch returns an error whose cause is ErrInvalidSubAck")
+				rr.OK(pfx+"/mismatch", ret.Pos(), "count mismatch returns an error whose cause is ErrInvalidSubAck")
 			} else {
-				rr.Bad("subscribeImpl/mismatch", ret.Pos(), "count mismatch does not return ErrInvalidSubAck")
+				rr.Bad(pfx+"/mismatch", ret.Pos(), "count mismatch does not return ErrInvalidSubAck")
 			}
 		}
 		if n == 0 {
-			rr.Bad("subscribeImpl/mismatch", e.iff.Pos(), "count mismatch edge does not return")
+			rr.Bad(pfx+"/mismatch", e.iff.Pos(), "count mismatch edge does not return")
 		}
 	}
 	// copy-back: stores to Subscription.QoS through subs[i] with value from Codes[i]
@@ -156,12 +175,12 @@ func (c *Ctx) ruleSubAckShape(rr *RuleRep) {
 		_, fld := fieldOf(fa)
 		nCopy++
 		if fld == nil || fld.Name() != "QoS" {
-			rr.Bad("subscribeImpl/copy-back", st.Pos(), "Subscribe overwrites field %s of the caller's subscription", fld.Name())
+			rr.Bad(pfx+"/copy-back", st.Pos(), "Subscribe overwrites field %s of the caller's subscription", fld.Name())
 			return
 		}
 		ia, ok := fa.X.(*ssa.IndexAddr)
 		if !ok || c.Resolve(ia.X) != subs {
-			rr.Bad("subscribeImpl/copy-back", st.Pos(), "granted QoS is not stored into the caller's subs slice")
+			rr.Bad(pfx+"/copy-back", st.Pos(), "granted QoS is not stored into the caller's subs slice")
 			return
 		}
 		v := stripConv(st.Val)
@@ -171,11 +190,11 @@ func (c *Ctx) ruleSubAckShape(rr *RuleRep) {
 			ia2, _ = ld.X.(*ssa.IndexAddr)
 		}
 		if ia2 == nil || !isCodes(ia2.X) {
-			rr.Bad("subscribeImpl/copy-back", st.Pos(), "granted QoS is not taken from the SUBACK return codes")
+			rr.Bad(pfx+"/copy-back", st.Pos(), "granted QoS is not taken from the SUBACK return codes")
 			return
 		}
 		if ia.Index != ia2.Index {
-			rr.Bad("subscribeImpl/copy-back", st.Pos(), "granted QoS for filter %s is taken from return code %s: request order is not preserved", ia.Index.Name(), ia2.Index.Name())
+			rr.Bad(pfx+"/copy-back", st.Pos(), "granted QoS for filter %s is taken from return code %s: request order is not preserved", ia.Index.Name(), ia2.Index.Name())
 			return
 		}
 		// index starts at 0 and steps by 1
@@ -187,7 +206,7 @@ func (c *Ctx) ruleSubAckShape(rr *RuleRep) {
 				}
 			}
 			if !okIdx {
-				rr.Bad("subscribeImpl/copy-back", st.Pos(), "copy-back index does not start at 0")
+				rr.Bad(pfx+"/copy-back", st.Pos(), "copy-back index does not start at 0")
 				return
 			}
 		}
@@ -198,15 +217,15 @@ func (c *Ctx) ruleSubAckShape(rr *RuleRep) {
 				first := hdr.Succs[0].Instrs[0]
 				if first != ssa.Instruction(st) {
 					if _, skip := CanReach(f, first, func(x ssa.Instruction) bool { return x.Block() == hdr || realExit(x) }, PathQ{BlockInstr: func(x ssa.Instruction) bool { return x == ssa.Instruction(st) }}); skip {
-						rr.Bad("subscribeImpl/copy-back", st.Pos(), "the granted QoS is copied back only under an additional condition: some return codes (e.g. the failure code 0x80) are not reported to the caller")
+						rr.Bad(pfx+"/copy-back", st.Pos(), "the granted QoS is copied back only under an additional condition: some return codes (e.g. the failure code 0x80) are not reported to the caller")
 						return
 					}
 				}
 			}
 		}
-		rr.OK("subscribeImpl/copy-back", st.Pos(), "subs[i].QoS = QoS(subAck.Codes[i]) with the same index, from 0, for every index")
+		rr.OK(pfx+"/copy-back", st.Pos(), "subs[i].QoS = QoS(subAck.Codes[i]) with the same index, from 0, for every index")
 	})
 	if nCopy == 0 {
-		rr.Bad("subscribeImpl/copy-back", f.Pos(), "granted QoS values are not copied back into the returned subscriptions")
+		rr.Bad(pfx+"/copy-back", f.Pos(), "granted QoS values are not copied back into the returned subscriptions")
 	}
 }
